@@ -16,6 +16,7 @@ from lbry.wallet.account import Account, HierarchicalDeterministic
 from lbry.wallet.database import Database, dict_row_factory
 from lbry.wallet.ledger import Ledger
 from lbry.wallet.transaction import Transaction, Output, Input
+from lbry.wallet.script import OutputScript
 from lbry.wallet.hash import TXRefImmutable
 from lbry.wallet.wallet import Wallet
 from symvm.sched import Sched
@@ -29,8 +30,10 @@ LEVEL_TEXT = ('Bounded model checking over server histories and schedules: a sol
 LEVEL_NOTE = ('All data on a path is concrete (transaction ids are real hashes and are used as dictionary keys and SQL values), so the solver '
               'only decides which choices and schedules exist; the deciding step is the exhaustive exploration of the decision tree by the '
               'symbolic VM, each path replayed natively.  Trusted: the interpreter, the scheduler (one task runs at a time, hand-over only '
-              'at stub awaits), the synchronous stand-in for AIOSQLite (one connection, db.run = one SQL transaction), sqlite.  NOT covered: '
-              'claims/supports accounting (protobuf), more than 100 transactions per address (batching), reorgs, several accounts, '
+              'at stub awaits), the synchronous stand-in for AIOSQLite (one connection, db.run = one SQL transaction), sqlite.  Claims and supports: two fixed four-transaction '
+              'histories (publish-update-abandon of an unsigned stream claim; own support, received tip, undecodable claim, unlock) over '
+              'every staging and notification order - the protobuf runtime is called natively on concrete claim bytes.  NOT covered: '
+              'signed claims, channels, purchases, solver-chosen claim shapes, more than 100 transactions per address (batching), reorgs, several accounts, '
               'header/merkle verification (C08), real network errors and retries.')
 ASSUMPTIONS = [
     'network stand-in: get_history / get_transaction_batch / subscribe_address answer from the current server state; the server never '
@@ -41,7 +44,7 @@ ASSUMPTIONS = [
     'coroutines one after the other',
     'headers stand-in of length 0: no merkle verification is attempted (heights are kept, is_verified stays false)',
 ]
-OUTSIDE = ['claims, supports and purchases', 'more than 100 transactions per address', 'several accounts and wallets',
+OUTSIDE = ['claims signed by channels, channel keys, purchases, claim shapes other than the two fixed histories', 'more than 100 transactions per address', 'several accounts and wallets',
            'the real AIOSQLite executor threads', 'network failures', 'merkle verification']
 
 TECHNIQUE = ('bounded symbolic execution of the real Python source (symvm): the shape of the server history, the staging and the schedule of the '
@@ -306,10 +309,13 @@ def build_world(spec, addresses, change=()):
     knows nothing about, otherwise the index of an earlier wallet-owned, still unspent output in `owned`; destination d <
     len(addresses) pays that wallet address, len(addresses) a foreign key hash, len(addresses)+1 a foreign script hash."""
     txs, raws, txids, parents, touches, owned, spent = [], [], [], [], [], [], []
+    kinds = {}                  # index into `owned` -> 'claim' / 'support' (absent: an ordinary payment)
+    first_inputs = []           # per transaction: the `owned` index its input 0 spends, or -1
     amount_i = 0
     for k, (source, dests) in enumerate(spec):
         tx = Transaction()
         touch, par = [], []
+        first_inputs.append((source[0] if isinstance(source, tuple) else source))
         for src in (source if isinstance(source, tuple) else (source,)):
             if src < 0:
                 ref = TXRefImmutable.from_id(('%02x' % (0xe0 + k)) * 32, 1)
@@ -336,6 +342,20 @@ def build_world(spec, addresses, change=()):
                 tx.add_outputs([Output.pay_pubkey_hash(amount, Ledger.address_to_hash160(change[0]))])
                 touch.append(change[0])
                 owned.append((k, len(tx.outputs) - 1, change[0]))
+            elif d in LOCKED_KINDS:
+                kind, ai = LOCKED_KINDS[d]
+                pkh = Ledger.address_to_hash160(addresses[ai])
+                if kind == 'claim':
+                    tx.add_outputs([Output.pay_claim_name_pubkey_hash(amount, 'name%d' % k, _stream_claim(k), pkh)])
+                elif kind == 'claim-undecodable':          # claim bytes that are no protobuf message: still a claim output
+                    tx.add_outputs([Output(amount, OutputScript.pay_claim_name_pubkey_hash(b'junk', b'\xff\xfe\xfd', pkh))])
+                elif kind == 'update':
+                    tx.add_outputs([Output.pay_update_claim_pubkey_hash(amount, 'name%d' % k, '%02x' % (0xc0 + k) * 20, _stream_claim(k), pkh)])
+                else:
+                    tx.add_outputs([Output.pay_support_pubkey_hash(amount, 'name%d' % k, '%02x' % (0xc0 + k) * 20, pkh)])
+                touch.append(addresses[ai])
+                owned.append((k, len(tx.outputs) - 1, addresses[ai]))
+                kinds[len(owned) - 1] = 'support' if kind == 'support' else 'claim'
             elif d == FOREIGN_KEY:
                 tx.add_outputs([Output.pay_pubkey_hash(amount, bytes([0x70 + k]) * 20)])
             else:
@@ -347,12 +367,24 @@ def build_world(spec, addresses, change=()):
         touches.append(touch)
     unspent = [(txids[k], pos, addr, txs[k].outputs[pos].amount) for i, (k, pos, addr) in enumerate(owned) if i not in spent]
     return dict(change=list(change), raws=raws, txids=txids, parents=parents, touches=touches, owned=owned, spent=spent, unspent=unspent,
-                amounts=[[o.amount for o in tx.outputs] for tx in txs])
+                kinds=kinds, first_inputs=first_inputs, amounts=[[o.amount for o in tx.outputs] for tx in txs])
 
 
 N_DEST = 3          # receiving addresses 0..2 may be paid; 2 lies beyond the initial gap
 FOREIGN_KEY, FOREIGN_SCRIPT = N_DEST, N_DEST + 1
 CHANGE0 = N_DEST + 2      # the first address of the change chain (change gap 1)
+# value locked in claims and supports: destination code -> (script kind, wallet receiving address index)
+CLAIM_A0, SUPPORT_A1, CLAIM_BAD_A1, UPDATE_A0, SUPPORT_A0 = N_DEST + 3, N_DEST + 4, N_DEST + 5, N_DEST + 6, N_DEST + 7
+LOCKED_KINDS = {CLAIM_A0: ('claim', 0), SUPPORT_A1: ('support', 1), CLAIM_BAD_A1: ('claim-undecodable', 1), UPDATE_A0: ('update', 0),
+                SUPPORT_A0: ('support', 0)}
+
+
+def _stream_claim(k):
+    from lbry.schema.claim import Claim
+    claim = Claim()
+    claim.stream.title = 'title %d' % k
+    claim.stream.source.media_type = 'text/plain'
+    return claim
 
 
 def choose_world(vm, n_tx, first_rich, two_inputs=True):
@@ -390,6 +422,9 @@ def choose_world(vm, n_tx, first_rich, two_inputs=True):
 
 
 # ------------------------------------------------------------------------------------------------ the reference
+LOCKED = [None]     # expected_view's second result: (txid, position) -> (claim / support / tip, amount)
+
+
 def expected_view(world, server, addresses):
     """What a synced wallet must show: reachable addresses (gap rule), their histories, the unspent outputs paying them."""
     used = set()
@@ -410,6 +445,7 @@ def expected_view(world, server, addresses):
         known_change += 1                            # change gap 1: one unused address follows the last used one
     reachable = list(addresses[:known]) + list(change[:known_change])
     utxos = {}
+    locked = {}
     for i, (k, pos, addr) in enumerate(world['owned']):
         if k >= server.n or addr not in reachable:
             continue
@@ -419,7 +455,16 @@ def expected_view(world, server, addresses):
             if (i in sp) if isinstance(sp, tuple) else (sp == i):
                 spender = j
         if spender is None:
-            utxos[(world['txids'][k], pos)] = world['amounts'][k][pos]
+            kind = world.get('kinds', {}).get(i)
+            if kind is None:
+                utxos[(world['txids'][k], pos)] = world['amounts'][k][pos]
+            else:
+                # value locked in a claim or support: not spendable, reported apart.  A support is the wallet's own when the first
+                # input of its transaction spends an output the wallet knows, otherwise it is a tip received
+                fi = world['first_inputs'][k]
+                mine = fi >= 0 and world['owned'][fi][2] in reachable
+                locked[(world['txids'][k], pos)] = (kind if kind == 'claim' else ('support' if mine else 'tip'), world['amounts'][k][pos])
+    LOCKED[0] = locked
     return known, utxos, known_change
 
 
@@ -607,6 +652,32 @@ def compare(vm, world, server, addresses, db, account, ledger, results):
     balance = vm.await_(account.get_balance())
     if balance != sum(utxos.values()):
         return 'VIOLATION: balance differs from the sum of the unspent outputs'
+    locked = LOCKED[0]
+    if world.get('kinds'):
+        want = {'claim': 0, 'support': 0, 'tip': 0}
+        for kind, amount in locked.values():
+            want[kind] += amount
+        spendable = sum(utxos.values())
+        reserved = want['claim'] + want['support'] + want['tip']
+        total = vm.await_(account.get_balance(include_claims=True))
+        if total != spendable + reserved:
+            return 'VIOLATION: balance including claims differs from spendable funds + value locked in claims and supports'
+        detail = vm.await_(account.get_detailed_balance())
+        if detail['total'] != spendable + reserved or detail['available'] != spendable or detail['reserved'] != reserved:
+            return 'VIOLATION: detailed balance does not report the locked value apart from the spendable funds'
+        sub = detail['reserved_subtotals']
+        if sub['claims'] != want['claim'] or sub['supports'] != want['support'] or sub['tips'] != want['tip']:
+            return 'VIOLATION: detailed balance splits the locked value wrongly between claims, supports and tips'
+        held = vm.await_(db.get_txos(accounts=[account], is_spent=False, no_tx=True, no_channel_info=True,
+                                     txo_type__in=(1, 2, 3, 4, 5, 6)))
+        held_map = {}
+        for txo in held:
+            held_map[(txo.tx_ref.id, txo.position)] = txo.amount
+        want_map = {}
+        for key in locked:
+            want_map[key] = locked[key][1]
+        if held_map != want_map:
+            return 'VIOLATION: the unspent claim/support outputs listed differ from those on the server'
     return None
 
 
@@ -662,6 +733,10 @@ SHAPES = {
     'to-change-chain': [(-1, [0]), (0, [FOREIGN_KEY, CHANGE0]), (1, [FOREIGN_KEY])],
     # two payments to one address
     'same-address-twice': [(-1, [0]), (-1, [0])],
+    # fund; publish a claim from it (claim to address 0, change to address 1); update the claim; abandon it (value back to address 1)
+    'claim-update-abandon': [(-1, [0]), (0, [CLAIM_A0, 1]), (1, [UPDATE_A0]), (3, [1])],
+    # fund; support somebody's claim from own funds (+ change); receive a tip from a stranger; an undecodable claim; unlock the own support
+    'support-tip-unlock': [(-1, [0]), (0, [SUPPORT_A1, 0]), (-1, [SUPPORT_A0, CLAIM_BAD_A1]), (1, [FOREIGN_KEY, 1])],
 }
 
 
@@ -703,6 +778,8 @@ def jobs(tier):
         race('spend-to-own', 0, False, 1, 1)
         race('beyond-gap', 0, False, 1, 1)
         race('same-address-twice', 1, False, 2, 2, True)
+        seq_shape('claim-update-abandon')
+        seq_shape('support-tip-unlock')
     else:
         seq(2, True)
         seq(3, 'fixed', None)
@@ -716,6 +793,10 @@ def jobs(tier):
         race('spend-to-own', 0, False, 1, 3)
         race('same-address-twice', 1, False, 2, 3, True)
         race('spend-to-own', 1, False, 2, 2, True)
+        seq_shape('claim-update-abandon')
+        seq_shape('support-tip-unlock')
+        race('claim-update-abandon', 0, False, 2, 1)
+        race('support-tip-unlock', 0, False, 2, 1)
     return out
 
 
@@ -785,6 +866,36 @@ def _always_receiving_manager(node):
     return False
 
 
+def _claims_counted_as_spendable(node):
+    """Account.get_balance no longer leaves claims and supports out of the spendable balance."""
+    import ast
+    for n in ast.walk(node):
+        if isinstance(n, ast.If) and ast.unparse(n.test) == 'not include_claims':
+            n.test = ast.Constant(False)
+            return True
+    return False
+
+
+def _support_recorded_as_payment(node):
+    """txo_to_row records a support output as an ordinary payment."""
+    import ast
+    for n in ast.walk(node):
+        if isinstance(n, ast.Assign) and ast.unparse(n) == "row['txo_type'] = TXO_TYPES['support']":
+            n.value = ast.parse("TXO_TYPES['other']", mode='eval').body
+            return True
+    return False
+
+
+def _undecodable_claim_is_payment(node):
+    """txo_to_row records a claim output whose bytes do not decode as an ordinary payment."""
+    import ast
+    for n in ast.walk(node):
+        if isinstance(n, ast.If) and ast.unparse(n.test) == 'txo.can_decode_claim':
+            n.orelse = [ast.parse("row['txo_type'] = TXO_TYPES['other']").body[0]]
+            return True
+    return False
+
+
 _SEQ2 = dict(family='seq', fn='sync', args=(2, None, 0, False, False), loop_bound=2000, max_depth=80)
 CANARIES = [
     dict(name='same-batch-spend-not-linked', target='lbry.wallet.ledger:Ledger._sync', mutate=_no_pending_resolution, job=_SEQ2),
@@ -793,6 +904,12 @@ CANARIES = [
     dict(name='received-outputs-not-recorded', target='lbry.wallet.database:Database._transaction_io', mutate=_only_my_inputs_recorded, job=_SEQ2),
     dict(name='change-chain-gap-not-maintained', target='lbry.wallet.ledger:Ledger.get_address_manager_for_address', mutate=_always_receiving_manager,
          job=dict(family='seq', fn='sync', args=(SHAPES['to-change-chain'], False, 0, False), loop_bound=2000, max_depth=80)),
+    dict(name='claims-counted-as-spendable', target='lbry.wallet.account:Account.get_balance', mutate=_claims_counted_as_spendable,
+         job=dict(family='seq', fn='sync', args=(SHAPES['claim-update-abandon'], False, 0, False), loop_bound=2000, max_depth=80)),
+    dict(name='support-recorded-as-payment', target='lbry.wallet.database:Database.txo_to_row', mutate=_support_recorded_as_payment,
+         job=dict(family='seq', fn='sync', args=(SHAPES['support-tip-unlock'], False, 0, False), loop_bound=2000, max_depth=80)),
+    dict(name='undecodable-claim-is-payment', target='lbry.wallet.database:Database.txo_to_row', mutate=_undecodable_claim_is_payment,
+         job=dict(family='seq', fn='sync', args=(SHAPES['support-tip-unlock'], False, 0, False), loop_bound=2000, max_depth=80)),
     dict(name='no-address-lock', target='lbry.wallet.ledger:Ledger.update_history', mutate=_no_address_lock,
          job=dict(family='race', fn='sync', args=(SHAPES['same-address-twice'], True, 1, False, False, 2, 2, True), loop_bound=2000, max_depth=80)),
 ]
